@@ -175,7 +175,7 @@ def run_history(part, binpath, rng, nops, sc_seed):
         ops = ops + [sync]; d.write(to_message(sync))
         d.write({"jsonrpc": "2.0", "id": last_id, "method": "shutdown"})
         reads = [op for op in ops if op["op"] == "read"]
-        deadline = time.monotonic() + 240
+        deadline = time.monotonic() + 1500; t_start = time.monotonic(); busy_since = None
         stall_until = 0; alive = True
         done = lambda: any(m.get("id") == last_id and "method" not in m for m in d.msgs)
         last_progress = time.monotonic(); seen = 0
@@ -186,9 +186,14 @@ def run_history(part, binpath, rng, nops, sc_seed):
                 from .c18 import proc_quiescent
                 if proc_quiescent(d.p.pid):
                     part.fail("%s: the server went silent: %d request(s) unanswered, nothing received for 20 s, all its threads sleeping and no CPU time consumed" % (what, d.inflight()), sc); return
+                # still computing (a loaded machine, a sanitizer build): no verdict from the clock as long as it works
+                if busy_since is None: busy_since = time.monotonic()
+                if time.monotonic() - busy_since > 600:
+                    part["inconclusive"].append("%s: nothing received for 10 min while the server keeps consuming CPU" % what); return
                 last_progress = time.monotonic()
+            elif len(d.msgs) != seen: busy_since = None
             if time.monotonic() > deadline:
-                part["inconclusive"].append("%s: history not finished after 240 s" % what); return
+                part["inconclusive"].append("%s: history not finished after %d s although the server kept answering" % (what, time.monotonic() - t_start)); return
             now = time.monotonic()
             if schedule == "burst": allow = (not d.out) or d.blocked_writes > 3          # read only once everything is written or the pipes are full
             elif schedule == "stalls":
@@ -291,7 +296,9 @@ def worker(args):
     binpath = server_bin(variant); part = Part()
     for i in range(nhist):
         s = "%s/%d" % (seed, i)
-        run_history(part, binpath, random.Random("C20/" + s), nops if i % 3 else nops * 4, s)
+        t0 = time.monotonic()
+        run_history(part, binpath, random.Random("C20/" + s), nops if (i % 3 or variant != "rel") else nops * 4, s)
+        part.add("slowest_history_seconds", int(time.monotonic() - t0) // 10 * 10)
     return part
 
 
@@ -301,7 +308,7 @@ def run(ctx):
     for p in pmap(worker, [("%s/%d" % (ctx.seed, i), nh, nops, "rel") for i in range(NCPU)]): ctx.merge(p)
     if not ctx.quick:
         server_bin("tsan"); before = ctx.extra.get("counters", {}).get("histories", 0)
-        for p in pmap(worker, [("%s/tsan/%d" % (ctx.seed, i), 12, nops, "tsan") for i in range(NCPU)]): ctx.merge(p)
+        for p in pmap(worker, [("%s/tsan/%d" % (ctx.seed, i), 12, 250, "tsan") for i in range(NCPU)]): ctx.merge(p)
         ctx.extra["sanitizer"] = {"build": "ThreadSanitizer (nightly -Zsanitizer=thread -Zbuild-std)", "histories": ctx.extra.get("counters", {}).get("histories", 0) - before,
                                   "reports": "a report (exit 66 / WARNING: ThreadSanitizer on stderr) is a violation; none seen unless listed under violations"}
     mi = ctx.extra.get("_sets", {}).get("max_inflight_requests", set())
